@@ -302,5 +302,7 @@ static Result run_case(const Case &c) {
 }
 
 int main(int argc, char **argv) {
+  g_history_enabled = true;  // process-history modes (harness/vf.h): prelude first / the case body twice in one process
+  g_prelude_fn = table_prelude;
   return vf_main<Case>(argc, argv, "C01", gen_case, run_case);
 }
